@@ -26,9 +26,15 @@ TRUSTED_BASE = [
 
 def load_findings():
     p = os.path.join(VERIF, "known_findings.json")
-    if not os.path.exists(p):
-        return []
-    return json.load(open(p)).get("findings", [])
+    out = []
+    if os.path.exists(p):
+        out += json.load(open(p)).get("findings", [])
+    d = os.path.join(VERIF, "known_findings.d")
+    if os.path.isdir(d):
+        for f in sorted(os.listdir(d)):
+            if f.endswith(".json"):
+                out += json.load(open(os.path.join(d, f))).get("findings", [])
+    return out
 
 
 def write_replay(pid, payload) -> str:
@@ -150,8 +156,6 @@ def main(argv=None):
     unexplained = []
     for (l, o, m) in disagreements:
         if any(v["line"] == l for v in new_viol):
-            continue
-        if covered_by_known(l, o, None) and False:
             continue
         unexplained.append({"line": l, "impl": o, "model": m})
 
